@@ -318,6 +318,19 @@ def build(P):
                   ("OUTPUT 1\nDECLARE x :\nOUTPUT 2", 2), ("OUTPUT 1\nx <- LENGTH(\"a\"\nOUTPUT 2", 2), ("OUTPUT 1\nINPUT\nOUTPUT 2", 2), ("OUTPUT 1\r\nx <- 2 *\r\nOUTPUT 2", 2), ("OUTPUT 1\nx <- 2 *", 2), ("x <- NOT", 1),
                   # a literal that is out of range is a fault of the source text wherever it stands, also in a branch never taken
                   ("OUTPUT 1\nIF FALSE THEN\nx <- 99999999999999999999\nENDIF\nOUTPUT 2", 3), ("OUTPUT 1\nPROCEDURE Never()\nOUTPUT 123456789012345678901234567890\nENDPROCEDURE\nOUTPUT 2", 3)]
+        # terminator family: every block construct closed by every OTHER construct's terminator, by nothing (end of input), or by its own terminator misspelt —
+        # always a syntax fault; the sentinel OUTPUT / file creation in front must not run
+        CONSTRUCTS = [("IF x = 1 THEN\nOUTPUT \"b\"", "ENDIF"), ("IF x = 1 THEN\nOUTPUT \"b\"\nELSE\nOUTPUT \"c\"", "ENDIF"), ("CASE OF x\n1: OUTPUT \"b\"\n2: OUTPUT \"c\"", "ENDCASE"),
+                      ("CASE OF x\n1: OUTPUT \"b\"\nOTHERWISE: OUTPUT \"c\"", "ENDCASE"), ("CASE OF x\n1 TO 3: OUTPUT \"b\"\nOTHERWISE: OUTPUT \"c\"\nOUTPUT \"d\"", "ENDCASE"),
+                      ("WHILE x < 1 DO\nx <- x + 1", "ENDWHILE"), ("REPEAT\nx <- x + 1", "UNTIL x > 0"), ("FOR i <- 1 TO 2\nOUTPUT i", "NEXT i"),
+                      ("PROCEDURE Pq()\nOUTPUT \"b\"", "ENDPROCEDURE"), ("FUNCTION Fq() RETURNS INTEGER\nRETURN 1", "ENDFUNCTION"), ("TYPE Tq\nDECLARE f : INTEGER", "ENDTYPE")]
+        TERMS = ["ENDIF", "ENDCASE", "ENDWHILE", "UNTIL x > 0", "NEXT i", "NEXT", "ENDPROCEDURE", "ENDFUNCTION", "ENDTYPE", "ELSE", "OTHERWISE", "", "ENDCAS", "END IF"]
+        pre_t = "OUTPUT \"SENTINEL\"\nOPENFILE \"sentinel.txt\" FOR WRITE\nCLOSEFILE \"sentinel.txt\"\nx <- 1"
+        for body, own in CONSTRUCTS:
+            for t_ in TERMS:
+                if t_ == own or (own == "NEXT i" and t_ == "NEXT") or (t_ == "ELSE" and body.startswith("IF") and "ELSE" not in body) or (t_ == "OTHERWISE" and body.startswith("CASE") and "OTHERWISE" not in body): continue
+                for after in ("", "\nOUTPUT \"after\""):
+                    shapes.append((pre_t + "\n" + body + ("\n" + t_ if t_ else "") + after, None))
         yield ("syntax-shapes", [Case(id="C11-shape-%d" % i, prog=(s + "\n").encode(), meta=dict(kind="syntax", line=ln, nlines=s.count("\n") + 1, shape=True)) for i, (s, ln) in enumerate(shapes)])
         cases = []
         n = sizes(tier, 300, 6000)
